@@ -45,7 +45,7 @@ Definition ddel (m : mgr) (f : field) : mgr := filter (fun p => negb (N.eqb (fst
 (* ---- what register_stack_state computes *)
 Inductive init : Set :=
   | IConst (v : val)      (* None / int / bool / str / float: lambda: init_val *)
-  | IFresh (k : N)        (* anything else: type(stack_item)  -> a new empty instance *)
+  | IFresh (k : N) (items : list Z)   (* anything else: a fresh (deep) copy of the value it was declared with *)
   | IClone.               (* a nested TraceStack: stack_item._clone *)
 Record decl : Set := { auto : list (field * init); manual : list field }.
 (* _stack_item_names(): chain(initializers.keys(), manual set) *)
@@ -55,11 +55,11 @@ Definition init_of (v : val) : init :=
   | VStack _ => IClone
   | VNone => IConst VNone
   | VInt _ | VBool _ | VStr _ | VFloat _ => IConst v
-  | VCont k _ => IFresh k
+  | VCont k items => IFresh k items
   end.
 (* _clone (after fix: the clone gets its own empty _stack) *)
 Definition run_init (i : init) : val :=
-  match i with IConst v => v | IFresh k => VCont k [] | IClone => VStack [] end.
+  match i with IConst v => v | IFresh k items => VCont k items | IClone => VStack [] end.
 
 Definition decls := list (field * decl).     (* stack attribute name -> its registration *)
 Fixpoint decl_of (ds : decls) (s : field) : option decl :=
@@ -197,9 +197,8 @@ Definition last_block (items : list item) : option N :=
 Definition mem (f : field) (l : list field) : bool := existsb (N.eqb f) l.
 Definition block_decl (items : list item) : decl :=
   let keys := flat_map collect items in
-  let man := match last_block items with
-             | None => []
-             | Some b => map fst (filter (fun fi => N.eqb (snd fi) b) (direct_manual items)) end in
+  let man := map fst (direct_manual items) in       (* every needing_manual_initialization block adds its fields (a later block used
+                                                      to REPLACE the earlier ones: finding C20-manual-blocks-replace, fixed) *)
   {| auto := map (fun fv => (fst fv, init_of (snd fv))) (filter (fun fv => negb (mem (fst fv) man)) keys);
      manual := man |}.
 Fixpoint all_decls (it : item) : decls :=
